@@ -455,7 +455,163 @@ setup:
 	    F->elog.count ? F->elog.msg[0] : "");
 }
 
-#define NSCEN 22
+/*
+ * Parameter indices: three scalars a, b, c, a parameter u that refers to b
+ * (unknown, correlated, or unknown of an unknown of b), then every order of
+ * the seven steps { delete a, delete b, delete c, delete u, create, create,
+ * create }.  After every step: a new index is not one that is still live,
+ * every live scalar index evaluates to its value, every deleted index that has
+ * not been given out again is refused with EINVAL.
+ */
+static void sc_param_indices(vf_result *r)
+{
+    static vf_errlog lg;
+    static const double sig1[1] = { 0.01 };
+    static const double f1[1] = { 1e9 };
+    long nhist = 0;
+
+    vf_desc(r, "parameter indices: 3 scalars and a parameter referring to "
+	    "one of them, then every order of 4 deletions and 3 creations; "
+	    "live indices evaluate, deleted ones are refused, a new index "
+	    "never equals a live one");
+    for (int kind = 0; kind < 3 && r->status == VF_OK; ++kind) {
+	int perm[7] = { 0, 1, 2, 3, 4, 5, 6 };
+	for (;;) {
+	    vnacal_t *vcp = vnacal_create((vnaerr_error_fn_t *)vf_errfn, &lg);
+	    int h[8], live[8], nh = 0, mid = -1;
+	    double complex val[8];
+	    char trace[200];
+	    size_t off = 0;
+
+	    if (vcp == NULL) {
+		vf_fail(r, "scenario-setup", "vnacal_create failed");
+		return;
+	    }
+	    trace[0] = 0;
+	    for (int i = 0; i < 3; ++i) {
+		val[nh] = 0.1 * (i + 1) + 0.05 * I;
+		h[nh] = vnacal_make_scalar_parameter(vcp, val[nh]);
+		live[nh] = 1;
+		++nh;
+	    }
+	    if (kind == 2) {
+		mid = vnacal_make_unknown_parameter(vcp, h[1]);
+		h[nh] = vnacal_make_unknown_parameter(vcp, mid);
+	    } else if (kind == 1) {
+		h[nh] = vnacal_make_correlated_parameter(vcp, h[1], f1, 1,
+			sig1);
+	    } else {
+		h[nh] = vnacal_make_unknown_parameter(vcp, h[1]);
+	    }
+	    val[nh] = val[1];
+	    live[nh] = 1;
+	    ++nh;
+	    if (h[0] < 0 || h[1] < 0 || h[2] < 0 || h[3] < 0 ||
+		    (kind == 2 && mid < 0)) {
+		vf_fail(r, "scenario-setup", "creating parameters failed");
+		vnacal_free(vcp);
+		return;
+	    }
+	    if (kind == 2 && vnacal_delete_parameter(vcp, mid) != 0) {
+		vf_fail(r, "scenario-setup", "deleting the middle unknown "
+			"failed");
+		vnacal_free(vcp);
+		return;
+	    }
+	    ++nhist;
+	    for (int st = 0; st < 7 && r->status == VF_OK; ++st) {
+		int op = perm[st];
+
+		vf_errlog_reset(&lg);
+		if (op < 4) {
+		    off += (size_t)snprintf(trace + off, sizeof(trace) - off,
+			    "delete %c(%d); ", "abcu"[op], h[op]);
+		    if (vnacal_delete_parameter(vcp, h[op]) != 0) {
+			vf_fail(r, "index:delete_parameter", "kind %d, %s: "
+				"deleting live parameter %d failed: %s", kind,
+				trace, h[op], lg.count ? lg.msg[0] : "");
+			break;
+		    }
+		    live[op] = 0;
+		} else {
+		    val[nh] = 0.5 + 0.1 * nh - 0.25 * I;
+		    h[nh] = vnacal_make_scalar_parameter(vcp, val[nh]);
+		    off += (size_t)snprintf(trace + off, sizeof(trace) - off,
+			    "create -> %d; ", h[nh]);
+		    if (h[nh] < 0) {
+			vf_fail(r, "index:make_parameter", "kind %d, %s: "
+				"creating a scalar parameter failed: %s",
+				kind, trace, lg.count ? lg.msg[0] : "");
+			break;
+		    }
+		    for (int i = 0; i < nh; ++i)
+			if (live[i] && h[i] == h[nh])
+			    vf_fail(r, "index:parameter-reissued", "kind %d, "
+				    "%s: the new parameter got index %d, "
+				    "which is still live", kind, trace, h[nh]);
+		    live[nh] = 1;
+		    ++nh;
+		}
+		++r->transitions;
+		for (int i = 0; i < nh && r->status == VF_OK; ++i) {
+		    double complex v;
+		    int reissued = 0;
+
+		    for (int j = 0; j < nh; ++j)
+			if (j != i && live[j] && h[j] == h[i])
+			    reissued = 1;
+		    if (!live[i] && reissued)
+			continue;
+		    /* the value of an unknown or correlated parameter cannot
+		       be read before a solve: u is only known to be honoured
+		       by its deletion succeeding when its turn comes */
+		    if (i == 3 && live[i])
+			continue;
+		    vf_errlog_reset(&lg);
+		    errno = 0;
+		    v = vnacal_get_parameter_value(vcp, h[i], 1e9);
+		    if (live[i]) {
+			if (!(cabs(v - val[i]) <= 1e-12))
+			    vf_fail(r, "index:parameter-not-honoured",
+				    "kind %d, %s: live parameter %d (returned "
+				    "by the library, never deleted) evaluates "
+				    "to %g%+gj, expected %g%+gj (errno %d, %s)",
+				    kind, trace, h[i], creal(v), cimag(v),
+				    creal(val[i]), cimag(val[i]), errno,
+				    lg.count ? lg.msg[0] : "no message");
+		    } else if (creal(v) != HUGE_VAL || errno != EINVAL ||
+			    lg.nonwarn != 1) {
+			vf_fail(r, "index:deleted-parameter-accepted",
+				"kind %d, %s: deleted parameter %d evaluates "
+				"to %g%+gj (errno %d, %d callback(s))", kind,
+				trace, h[i], creal(v), cimag(v), errno,
+				lg.nonwarn);
+		    }
+		}
+	    }
+	    vnacal_free(vcp);
+	    if (r->status != VF_OK)
+		return;
+	    /* next permutation */
+	    int i = 5, j = 6;
+	    while (i >= 0 && perm[i] >= perm[i + 1])
+		--i;
+	    if (i < 0)
+		break;
+	    while (perm[j] <= perm[i])
+		--j;
+	    { int t = perm[i]; perm[i] = perm[j]; perm[j] = t; }
+	    for (int a = i + 1, b = 6; a < b; ++a, --b) {
+		int t = perm[a]; perm[a] = perm[b]; perm[b] = t;
+	    }
+	}
+    }
+    r->states = nhist;
+    r->nontrivial = 1;
+    vf_outcome(r, "parameter indices consistent");
+}
+
+#define NSCEN 23
 static void run_scenario(int k, vf_result *r)
 {
     const char *err;
@@ -476,6 +632,7 @@ static void run_scenario(int k, vf_result *r)
     case 4: sc_retry(&c3_scB, 2, 0, r); break;
     case 5: sc_rejected_add(r); break;
     case 6: sc_indices(r); break;
+    case 21: sc_param_indices(r); break;
     case 13: case 14: case 15: case 16: case 17: case 18: case 19: case 20:
 	sc_degenerate_trl(k - 13, r);
 	break;
